@@ -449,7 +449,8 @@ Qed.
       first-occurrence order), key present iff it passes;
     - [C02_map_keys_remove] (on): soundness only.  The converse is FALSE:
       [C02_removed_reference_run_refuted] (finding C02-F2, same root cause as
-      C12-F2): a constraint whose chosen alternative refers to a shape that
+      C12-F2; for the order of ClassShexer's stages before the repair,
+      [c_clean_before_merge = false]): a constraint whose chosen alternative refers to a shape that
       ends up empty is deleted outright. *)
 From Shexer Require Import Model.RunMap Proofs.RunMapProofs Proofs.RunMapWitness.
 From Shexer Require Model.Selectors.
@@ -496,16 +497,25 @@ Proof. exact m_keys_third_keep. Qed.
     with T.  The real Shaper prints the same shape on this input (pinned
     reproducer of the finding). *)
 Lemma C02_removed_reference_run_refuted :
+  c_clean_before_merge = false ->
   exists c orc sp g thr ns shapes I sh p,
     r_remove_empty c = true /\ run_shapes_map BAlg c orc sp thr g = inl (ns, shapes) /\
     Selectors.run orc sp g = Selectors.OOk I /\ In sh shapes /\
     key_passes_occ_g BAlg (tau_shaper sp) (Selectors.tau_of sp) (r_inverse c) thr I g (sh_class sh) false p VNonLit /\
     ~ In (false, p, VNonLit) (map (skey (scfg_map c sp ns)) (sh_stmts sh)).
 Proof.
-  exists (with_kls false base_rcfg), m_orc, m_spec, m_graph, (b_ratio 1 3).
-  eexists. eexists. eexists. eexists. exists (ex "p").
-  split; [reflexivity|]. split; [vm_compute; reflexivity|]. split; [vm_compute; reflexivity|].
-  split; [left; reflexivity|]. split.
-  - split; [discriminate|]. exists c_IRI_ELEM_TYPE, CKplus. vm_compute. repeat split; reflexivity.
-  - vm_compute. intros [H|[]]. discriminate H.
+  flag_or ltac:(
+    exists (with_kls false base_rcfg), m_orc, m_spec, m_graph, (b_ratio 1 3);
+    eexists; eexists; eexists; eexists; exists (ex "p");
+    split; [reflexivity|]; split; [vm_compute; reflexivity|]; split; [vm_compute; reflexivity|];
+    split; [left; reflexivity|]; split;
+    [ split; [discriminate|]; exists c_IRI_ELEM_TYPE, CKplus; vm_compute; repeat split; reflexivity
+    | vm_compute; intros [H|[]]; discriminate H ]).
 Qed.
+
+(** once ClassShexer removes the empty shapes before the merges (C02-F2 repaired) the key is there *)
+Example C02_removed_reference_run_fixed :
+  c_clean_before_merge = true ->
+  map_keys (with_kls false base_rcfg) (b_ratio 1 3) =
+  Some [(lab_S, [(false, ex "name", VLit c_STRING_TYPE); (false, ex "p", VNonLit)])].
+Proof. exact m_keys_third_fixed. Qed.
